@@ -1,4 +1,5 @@
 """C13 - spans and positions faithfully locate every tree node in the input."""
+import re
 from . import mir, rt, gen, idiom
 from .mir import Sim, TermBuilder, callee, fmt, has_call, has_field
 from .rt import is_call, calls, idx
@@ -656,6 +657,89 @@ def gen_walk(tokens):
 LR_NEXT_TOKEN = r"^rustemo::lr::parser::LRParser::<[^>]*>::next_token$"
 
 
+def _head_fields(F, term):
+    """field view of a GssHead value built from another head: {field: term}, base head term (or None). Understands
+    GssHead::new(..) (parameters by name), GssHead::with_*(base, ..) (the struct literal of the callee, `self` := base) and a
+    struct literal."""
+    if not isinstance(term, tuple):
+        return None, None
+    if term[0] == "agg" and str(term[1]).endswith("GssHead::GssHead"):
+        return dict(term[2]), None
+    if term[0] != "call":
+        return None, None
+    name, args = term[1], term[2]
+    if "gss::GssHead" not in name:
+        return None, None
+    f = F.fns.get(name)
+    if f is None or not f.has_body():
+        return None, None
+    params = {f.var_name(i): args[i - 1] for i in range(1, f.argc + 1) if i - 1 < len(args)}
+    lit = None
+    for p in Sim(f, F).run():
+        for e in p.events:
+            if e[0] == "return" and isinstance(e[1], tuple) and e[1][0] == "agg" and str(e[1][1]).endswith("GssHead::GssHead"):
+                lit = dict(e[1][2])
+    if lit is None:
+        return None, None
+    def subst(x):
+        if isinstance(x, tuple):
+            if x[0] == "param" and x[1] in params:
+                return params[x[1]]
+            return tuple(subst(y) for y in x)
+        return x
+    return {k: subst(v) for k, v in lit.items()}, params.get("self")
+
+
+def r_derived_heads(F, res):
+    """A GLR head that is made from another head at the same place (a second lookahead of a lexical ambiguity:
+    head_for_lookahead) stands where its base stands: position, span (= the last token BEFORE the head: the anchor of EMPTY
+    reductions), state, frontier and layout are the base's; only the lookahead differs."""
+    rid = res.rule("C13-R11", "GLR: a head split off for another lookahead keeps the base head's position, span, state, frontier and "
+                   "layout; only token_ahead is new (the span of a head is the last token before it, where EMPTY reductions are "
+                   "anchored - not the lookahead's)", floor=5)
+    try:
+        g, paths = rt.cache(F).paths(rt.GLR + "head_for_lookahead$")
+    except mir.AnchorLost as e:
+        res.undecided(rid, str(e))
+        return
+    done = False
+    for p in paths:
+        for e in p.events:
+            if e[0] == "call" and e[1].endswith("::add_head") and "GssGraph" in e[1] and not done:
+                done = True
+                fields, base = _head_fields(F, e[2][1])
+                if fields is None:
+                    res.undecided(rid, "the head added by head_for_lookahead is built in a way the rule does not read: %s" % fmt(e[2][1])[:100], g.loc())
+                    return
+                if base is None:
+                    bs = [c for c in mir.calls_in(e[2][1]) if c[1].endswith("::head") and "GssGraph" in c[1]]
+                    base = ("call", bs[0][1], bs[0][2]) if bs else None
+                bstr = fmt(base) if base is not None else None
+                for fld in ("position", "span", "state", "frontier", "layout_ahead"):
+                    v = fields.get(fld)
+                    vs = fmt(v) if v is not None else "<missing>"
+                    same = v is not None and base is not None and (
+                        (v[0] == "field" and v[2] == fld and idiom_eq(v[1], base)) or
+                        (v[0] == "call" and mir.call_matches(v[1], "Context::" + fld) and v[2] and idiom_eq(v[2][0], base)))
+                    if same:
+                        res.ok(rid, "head_for_lookahead/" + fld, g.loc(), "= the base head's")
+                    else:
+                        res.violation(rid, "head_for_lookahead/" + fld, "the head made for another lookahead gets %s = %s, not the "
+                                      "%s of the head it is split from" % (fld, vs[:80], fld), g.loc())
+    if not done:
+        res.anchor_lost(rid, "add_head in head_for_lookahead not found", g.loc())
+
+
+def idiom_eq(a, b):
+    from . import idiom
+    def peel(x):
+        while isinstance(x, tuple) and x and x[0] in ("deref", "ref") and len(x) > 1:
+            x = x[1]
+        return x
+    a, b = peel(a), peel(b)
+    return a == b or idiom.same(a, b)
+
+
 def r_layout_span(F, res, rid=None, prefix=""):
     """An EMPTY reduction is anchored at the end of the context's span ("the end of the previous token", C13-R? empty
     forms). The layout sub-parser runs ON the content context and shifts its own tokens into it: unless the span is put
@@ -688,6 +772,7 @@ def run(ctx, res):
     r_glr(F, res)
     r_bytes(F, res)
     r_layout_span(F, res)
+    r_derived_heads(F, res)
     r_generated(ctx, res)
     res.explanation = (
         "Decides where span endpoints and token values come from (argument provenance over MIR, path simulation): LR shift "
